@@ -85,6 +85,23 @@ def solver_case(rep, spec, index):
     if not sane:
         rep.count("solver_numerical_breakdown_skipped")  # see C06: gamma outside 1e-8..1e8 (shipped UNIQUAC sets outside their range)
         return
+    # the public driving-force routine called directly at a given permeate composition, feed in either basis (no iteration involved)
+    w = fc.comp.p
+    cond = 1 + 1 / min(w, 1 - w) + 1 / min(xm.p, 1 - xm.p)
+    yq = Composition(p=rng.uniform(0.02, 0.98), type="weight")
+    sda, da = _guard(lambda: pv.get_partial_fluxes_from_permeate_composition(fc.p1, fc.p2, yq, fc.comp, fc.t_feed, fc.tp, fc.pp, fc.model))
+    sdb, db = _guard(lambda: pv.get_partial_fluxes_from_permeate_composition(fc.p1, fc.p2, yq, xm, fc.t_feed, fc.tp, fc.pp, fc.model))
+    if sda == "ok" and sdb == "ok":
+        try:
+            _, pf, perm = c02.ref_fluxes(fc, yq.p, fc.p1.value, fc.p2.value)
+            for i in (0, 1):
+                scale = (fc.p1.value, fc.p2.value)[i] * max(abs(float(pf[i])), abs(float(perm[i])))
+                rep.check("driving-force routine called directly: same fluxes from mass- and mole-fraction feed", abs(float(da[i]) - float(db[i])), 1e-11 * cond * scale, dict(case, y_given=yq.p),
+                          {"mass": [float(da[0]), float(da[1])], "molar": [float(db[0]), float(db[1])]})
+        except Exception:
+            rep.count("direct_call_reference_failed")
+    else:
+        rep.require("driving-force routine called directly: both bases have the same outcome", sda == sdb, dict(case, y_given=yq.p), {"mass": sda, "molar": sdb})
     if fc.mode not in ("V", "P0") and 0 <= a["y"] <= 1 and not (c02.lipschitz(fc, a["y"], fc.p1.value, fc.p2.value, fc.precision) < 0.9):
         rep.count("solver_non_contractive_map_skipped")
         return
